@@ -114,6 +114,23 @@ Theorem C19_combine_nodup_len : forall l, m_built l ->
 Proof. exact combine_nodup_len. Qed.
 Print Assumptions C19_combine_nodup_len.
 
+(* the IDSet methods on ANY signer list (restored from the wire, unsorted, with repetitions):
+   Contains is membership in the iterated list, Len its length, early exit a prefix *)
+Theorem C19_multi_any_list : forall (l : multi),
+  (forall x, m_contains x l = true <-> In x l) /\
+  m_len l = length l /\ m_enum l = l /\
+  (forall k, m_range_count k l = firstn (Nat.max 1 k) l) /\
+  (forall St (f : St -> N -> St * bool) s, m_range_while f l s = fst (fold_until f l s)).
+Proof. exact multi_any_list. Qed.
+Print Assumptions C19_multi_any_list.
+
+(* NewMultiSorted is an ascending rearrangement of exactly the given signatures *)
+Theorem C19_new_sorted : forall l,
+  Permutation.Permutation (m_new_sorted l) l /\ StronglySorted N.le (m_new_sorted l) /\
+  m_len (m_new_sorted l) = length l /\ (forall x, m_contains x (m_new_sorted l) = true <-> In x l).
+Proof. exact new_sorted_spec. Qed.
+Print Assumptions C19_new_sorted.
+
 (* BLS: Combine's participant field *)
 Theorem C19_bls_combine_ok : forall sigs p, b_combine sigs = COk p ->
   exists ss, sigs = map Some ss /\ (2 <= length ss)%nat /\ inv p /\
@@ -157,6 +174,11 @@ Example C19_ex_combine :
   (m_combine [Some [3; 1]; Some [2]], m_combine [Some [3; 1]; Some [2; 3]], m_combine [Some [1]],
    m_combine [Some [1]; None])
   = (COk [3; 1; 2], CErrOverlap, CErrMultiple, CErrType).
+Proof. vm_compute. reflexivity. Qed.
+
+Example C19_ex_new_sorted :
+  (m_new_sorted [300; 4294967295; 0; 3; 300; 1], m_contains 4294967295 [3; 1; 4294967295], m_range_count 2 [3; 1; 3])
+  = ([0; 1; 3; 300; 300; 4294967295], true, [3; 1]).
 Proof. vm_compute. reflexivity. Qed.
 
 Example C19_ex_built : m_built [3; 1; 2].
